@@ -498,6 +498,83 @@ pub fn c05_drop(cfg: &Value) {
     }
 }
 
+/// C05, a producer that does not stop: for every entry the stream writes, another one is appended
+/// (from inside the stream's `next`, so the queue never runs empty) until a budget of `refills`
+/// is used up, and every written entry takes 8 s of (fake) time, so every drain pass ends at the
+/// flush deadline. The join handle's drop must return while the producer is still going: a
+/// shutdown that completes only once the producer has stopped does not terminate against one
+/// that never does. Horizon: `refills` entries (>= 5 drain passes after the drop began).
+///
+/// The harness cannot see the instant at which the drop stores the shutdown flag, and a
+/// preemption between "the drop began" and that store lets the writer make any amount of
+/// progress in between (a first version run at preemption bound 1 raised exactly that false
+/// alarm). So these models run without preemptions, and the arrival point is enumerated instead:
+/// main drops the handle while the stream is inside `next` of the `k`-th entry (the stream opens
+/// a gate and yields there; main then runs up to the join).
+pub fn c05_busy_producer(cfg: &Value) {
+    assert_eq!(cfg["pb"].as_u64(), Some(0), "HARNESS: the busy-producer models need preemption bound 0");
+    let k = cfg["k"].as_u64().unwrap_or(0) as usize;
+    let gate = Gate::new(0);
+    let prefill = cfg["prefill"].as_u64().unwrap_or(40) as usize;
+    let refills = cfg["refills"].as_u64().unwrap_or(200) as usize;
+    let horizon = cfg["horizon"].as_u64().unwrap_or(160) as usize;
+    let (mut stream, log) = RecStream::new(BTreeMap::new());
+    let slot: std::sync::Arc<std::sync::Mutex<Option<Q>>> = Default::default();
+    let left = std::sync::Arc::new(std::sync::atomic::AtomicUsize::new(refills));
+    {
+        let (slot, left, gate) = (slot.clone(), left.clone(), gate.clone());
+        let mut seen_n = 0usize;
+        stream.on_next = Some(Box::new(move |_seen| {
+            seen_n += 1;
+            if seen_n == k {
+                gate.grant(1);
+                thread::yield_now();
+            }
+            vtime::advance(Duration::from_secs(8));
+            let l = left.load(std::sync::atomic::Ordering::SeqCst);
+            if l == 0 {
+                return;
+            }
+            // (the handle is moved out of and back into the slot: no scheduler-visible step while
+            // a std mutex is held)
+            let q = slot.lock().unwrap_or_else(|e| e.into_inner()).take();
+            if let Some(q) = q {
+                left.store(l - 1, std::sync::atomic::Ordering::SeqCst);
+                q.append(Tag { p: 7, seq: (l % 200) as u8 });
+                *slot.lock().unwrap_or_else(|e| e.into_inner()) = Some(q);
+            }
+        }));
+    }
+    let (q, handle) = build(false, 128, stream);
+    for si in 0..prefill {
+        q.append(Tag { p: 0, seq: si as u8 });
+    }
+    let for_stream = q.clone();
+    *slot.lock().unwrap_or_else(|e| e.into_inner()) = Some(for_stream);
+    if k > 0 {
+        gate.pass();
+    }
+    let at_begin = left.load(std::sync::atomic::Ordering::SeqCst);
+    let written_at_begin = tags_in(&log.lock().unwrap_or_else(|e| e.into_inner())).len();
+    drop(handle);
+    let at_return = left.load(std::sync::atomic::Ordering::SeqCst);
+    let end = log.lock().unwrap_or_else(|e| e.into_inner()).clone();
+    let written_after = tags_in(&end).len() - written_at_begin;
+    mc::outcome(format!("drop began with {written_at_begin} entries written, producer budget {at_begin}; at return {written_after} more written, budget {at_return}; closed={}", end.last() == Some(&Ev::Dropped)));
+    if end.last() != Some(&Ev::Dropped) {
+        mc::violation("shutdown-without-close", format!("drop(handle) returned but the stream has not been dropped; {} entries written", tags_in(&end).len()));
+    }
+    if at_begin >= horizon && at_return == 0 {
+        mc::violation(
+            "shutdown-waits-for-the-producer-to-stop",
+            format!("drop(handle) returned only after the producer had used up its whole budget: {written_after} entries ({} s of writer time at 8 s each, {} drain passes) were written after the drop began, and the stream was closed only once the queue ran empty - against a producer that does not stop the drop never returns", written_after * 8, written_after / 32),
+        );
+    }
+    let from_stream = slot.lock().unwrap_or_else(|e| e.into_inner()).take();
+    drop(from_stream);
+    drop(q);
+}
+
 /// C05 forget path: the join handle is forgotten; once the last queue handle is gone the writer
 /// must drain, flush, close the stream and exit within a bounded number of flush intervals.
 pub fn c05_forget(cfg: &Value) {
